@@ -107,6 +107,7 @@ def truncation_postconditions(ctx, inst):
     L1, L2 = ("exh", ("L", "arg1")), ("exh", ("L", "arg2"))
     ctx.record = True
     n_ok = 0
+    n_sticky, sticky_bad = 0, []
     for st, rv in ctx.exit_states:
         both = L1 in st.ghost and L2 in st.ghost
         ok = both
@@ -154,8 +155,19 @@ def truncation_postconditions(ctx, inst):
             if isinstance(cnt, int) and cnt in G.base and mx is not None:
                 ok = both or st.diff_le(mx, cnt, 0)
                 why += " count=%s max_digits=%s" % (st.get_iv(cnt), st.get_iv(mx))
+                # sticky digit: the count exceeds max_digits only when a `1` was appended for a dropped NON-ZERO digit
+                # ("trailing zeros never break a tie"): the byte read last on this path must exclude b'0'
+                if st.diff_le(mx, cnt, -1):
+                    n_sticky += 1
+                    lb = st.ghost.get(("last_input_byte",))
+                    LB = st.get_iv(lb) if isinstance(lb, int) and lb in G.base else None
+                    if not (LB is not None and (LB[0] > 0x30 or LB[1] < 0x30)):
+                        sticky_bad.append("an exit with count > max_digits whose last-read input byte is %s" % (LB,))
         ctx.oblige("post:unread digits imply the truncation flag", ok, inst, inst.get("span"), why)
         n_ok += ok
+    if name == "parse_mantissa":
+        ctx.oblige("post:unread digits: the sticky digit is appended only after a non-zero dropped digit was read", not sticky_bad and n_sticky >= 1, inst, inst.get("span"),
+                   "; ".join(sorted(set(sticky_bad))[:3]) or "%d exits with count > max_digits" % n_sticky)
     if not ctx.exit_states:
         ctx.oblige("post:unread digits imply the truncation flag", False, inst, inst.get("span"), "no exit state")
 
